@@ -25,7 +25,7 @@ PROP = dict(
     level_text=("Hundreds to thousands of randomized multi-thread logging scenarios against the real front end, AsyncPipe-based sinks and file "
                 "roll-over; every record in every sink is matched to exactly one call. Held on the schedules and configurations observed."),
     level_note="trusts the harness's line parser and call log, gcc TSan/ASan; schedules sampled",
-    required_counters={"all": ["records_recording_sink", "records_file_sink", "records_async_stdout", "records_sync_stdout", "records_truncated",
+    required_counters={"all": ["file_fault_windows", "file_fault_windows_with_a_file_already_open", "records_recording_sink", "records_file_sink", "records_async_stdout", "records_sync_stdout", "records_truncated",
                                "records_empty_text", "records_over_2048", "file_rollovers", "calls_rejected_by_filter",
                                "calls_while_sink_disabled", "enable_disable_transitions", "relevel_module_set_again", "relevel_module_unset", "relevel_default", "verif_point_delays"]},
 )
